@@ -95,6 +95,13 @@ def generate(rng, tier):
         for text, fl in ((None, 0), (TEXTS[2], F['COMMENTS'])):
             n += 1
             yield scenario('apid%d' % n, text, False, fl, 'api-directed', calls)
+    # a user pointer is replaced, and the parse callback asked for the new value REFUSES: the old value stays, once
+    for calls in (['setopt 0 %s %s' % (hx(b'p'), hx(b'v1')), 'failat 1', 'setopt 0 %s %s' % (hx(b'p'), hx(b'v2')), 'failat 0', 'setopt 0 %s %s' % (hx(b'p'), hx(b'v3'))],
+                  ['setopt 0 %s %s' % (hx(b'pl'), hx(b'a')), 'failat 1', 'setmulti 0 %s %s %s' % (hx(b'pl'), hx(b'b'), hx(b'c')), 'failat 0', 'print 0 0'],
+                  ['setopt 0 %s %s' % (hx(b'sec|p'), hx(b'w1')), 'failat 1', 'parse_buf 0 ' + hx(b'sec { p = w2 }\n'), 'failat 0', 'parse_buf 0 ' + hx(b'sec { p = w3 }\n')],
+                  ['parse_buf 0 ' + hx(b'p = u1\n'), 'failat 1', 'parse_buf 0 ' + hx(b'p = u2\n'), 'failat 0']):
+        n += 1
+        yield scenario('apir%d' % n, None, False, 0, 'api-directed', calls)
     for _ in range(150 if tier == 'quick' else 4000):
         n += 1
         yield scenario('api%d' % n, r.pick([None, TEXTS[0], TEXTS[2]]), r.chance(1, 2), r.pick([0, F['COMMENTS'], F['IGNORE_UNKNOWN'], F['IGNORE_UNKNOWN'] | F['COMMENTS']]), 'api',
